@@ -139,7 +139,17 @@ func writeBaseline(p *Prop, repo string) int {
 		return 2
 	}
 	set := map[string]bool{}
+	known := map[string]bool{}
+	for _, f := range loadFindings() {
+		if f.Property == p.ID && f.Status == "known" {
+			known[f.Key] = true
+		}
+	}
 	for _, o := range res.Obs {
+		if o.st == Violated && known[o.Key] {
+			set[baseKey(o.Key)] = true // a recorded known finding is a confirmed instance too
+			continue
+		}
 		if o.st == Violated || o.st == Undecided {
 			fmt.Fprintf(os.Stderr, "%s: not writing a baseline from a tree with failing obligation %s\n", p.ID, o.Key)
 			return 2
